@@ -18,6 +18,8 @@ LEVEL_TEXT = ("Proof. Lean theorems over the connectivity model (lean/BarterMode
               "(market/account_item_heals), on-disconnect is invoked once per notice with the right exchange (on_disconnect_once), and the whole "
               "state is a function of the history (refines_spec). Unbounded in n and in history length, which the single-step tests cannot reach. "
               "The model is tied to the code by running the same histories through the real Engine::process on every run.")
-LEVEL_NOTE = ("Trusted: Lean kernel; axioms propext/Classical.choice/Quot.sound only; the hand-written model (tied by sampled correspondence: 300 quick / "
+PREBUILD = [["python3", "tools/rust2lean_sm.py", "--require", "connectivity"]]
+LEVEL_NOTE = ("Health / ConnectivityState / all_healthy are additionally regenerated from the source by tools/rust2lean_sm.py and proved equal to the model (kernels_agree_with_source). "
+              "Trusted: Lean kernel; axioms propext/Classical.choice/Quot.sound only; the hand-written model (tied by sampled correspondence: 300 quick / "
               "10k random + all 37k histories of length <=5 over 2 exchanges thorough); harness and driver. Assumes n >= 1, events name known exchanges, "
               "distinct exchange ids (ExchangeId and ExchangeIndex lookups hit the same slot).")
